@@ -98,6 +98,8 @@ def render_enum(d):
         a = []
         if v["rclass"] != "none":
             a.append("rename = %s" % rust_str(S(v["rename"])))
+        if v.get("vra", "none") != "none":
+            a.append("rename_all = %s" % rust_str(v["vra"]))
         name = S(v["name"])
         pre = ("#[serde(%s)] " % ", ".join(a)) if a else ""
         if v["shape"] == "unit":
@@ -286,15 +288,16 @@ def random_defs(seed, n):
                 if tg == "internal" and (sh, pl) == ("newtype", "str"):
                     pl = "inner"
                 if tg == "untagged":
-                    if (sh, pl) in seen:
+                    if (sh, pl) in seen and sh != "unit":      # (several unit variants are all `null`: allowed)
                         continue
                     objs = {("newtype", "inner"), ("struct", "none"), ("empty", "none")}
                     if ((sh, pl) == ("empty", "none") and seen & objs) or ((sh, pl) in objs and ("empty", "none") in seen):
                         continue      # an untagged `V {}` reads any object: it only goes with variants that are not objects
                     seen.add((sh, pl))
                 rc = "plain" if rng.random() < 0.15 else "none"
+                vra = rng.choice(RULES) if sh == "struct" and rng.random() < 0.3 else "none"      # a struct variant's own rename_all
                 vs.append({"name": list(nm), "style": nm, "shape": sh, "payload": pl, "rclass": rc,
-                           "rename": ["r", str(i)] if rc == "plain" else []})
+                           "rename": ["r", str(i)] if rc == "plain" else [], "vra": vra})
             out.append({"kind": "enum", "ra": ra, "tagging": tg, "variants": vs})
     for d in out:
         d["random"] = True
